@@ -601,7 +601,13 @@ pub async fn run_suite(seed: u64, cases: usize, only: Option<usize>, out_path: S
       continue;
     }
     progress.store((case as u64) << 32, Ordering::Relaxed);
-    let (log, fails, st) = run_case(case, crng, progress.clone()).await;
+    let panics_before = crate::PANICS.load(Ordering::SeqCst);
+    let (log, mut fails, st) = run_case(case, crng, progress.clone()).await;
+    if crate::PANICS.load(Ordering::SeqCst) > panics_before {
+      for tag in ["C13", "C12"] {
+        fails.push(format!("{tag}: [server-panic] a task of the server panicked during this history (the real server's panic hook ends the process)"));
+      }
+    }
     if only.is_some() || !fails.is_empty() {
       transcript.push_str(&log);
     }
